@@ -1,12 +1,12 @@
 #!/usr/bin/env bash
 # tools/seeded_confirm.sh <ID> <crate-dir> <package> <demo-file.rs>
 # Confirm a seeded change in its scratch worktree /tmp/seed-<ID>: demo passes without the patch, fails with it,
-# and the pinned suite still passes with the patch applied.
+# and the pinned suite still passes with the patch applied. DEMO_RUSTFLAGS="--cfg emit_rs_emit_verif" for demos that use the hooks.
 ID="$1"; CRATE="$2"; PKG="$3"; DEMO="$4"; W="/tmp/seed-$ID"; T="${DEMO%.rs}"
 cd "$W" || exit 2
 git checkout -q -- . ; mkdir -p "$CRATE/tests"; cp "_out/demo/$DEMO" "$CRATE/tests/"
-echo "--- without patch"; CARGO_TARGET_DIR=$W/target cargo test -p "$PKG" --offline --test "$T" ${FEATURES:+--features $FEATURES} 2>&1 | grep -E "^test result|error(\[|:)" | head -3
+echo "--- without patch"; RUSTFLAGS="${DEMO_RUSTFLAGS:-}" CARGO_TARGET_DIR=$W/target${DEMO_RUSTFLAGS:+-verif} cargo test -p "$PKG" --offline --test "$T" ${FEATURES:+--features $FEATURES} 2>&1 | grep -E "^test result|error(\[|:)" | head -3
 git apply _out/patch.diff || { echo "patch does not apply"; exit 2; }
-echo "--- with patch"; CARGO_TARGET_DIR=$W/target cargo test -p "$PKG" --offline --test "$T" ${FEATURES:+--features $FEATURES} 2>&1 | grep -E "^test result|error(\[|:)" | head -3
+echo "--- with patch"; RUSTFLAGS="${DEMO_RUSTFLAGS:-}" CARGO_TARGET_DIR=$W/target${DEMO_RUSTFLAGS:+-verif} cargo test -p "$PKG" --offline --test "$T" ${FEATURES:+--features $FEATURES} 2>&1 | grep -E "^test result|error(\[|:)" | head -3
 rm "$CRATE/tests/$DEMO"
 echo "--- suite with patch"; CARGO_TARGET_DIR=$W/target cargo nextest run --workspace --no-fail-fast --offline --test-threads 8 2>&1 | grep -E "Summary|FAIL" | head -5
